@@ -1,3 +1,4 @@
+mod blockcases;
 mod log;
 mod oracles;
 mod replay;
@@ -31,6 +32,16 @@ fn main() {
         tracing::subscriber::set_global_default(cap).expect("subscriber");
     }
     match sub {
+        "blockcases" => {
+            let inp = arg(&args, "--in").expect("--in");
+            let out = arg(&args, "--out").expect("--out");
+            let t: u64 = arg(&args, "--t").and_then(|s| s.parse().ok()).unwrap_or(100);
+            let par: usize = arg(&args, "--par").and_then(|s| s.parse().ok()).unwrap_or(12);
+            let cases: Vec<Value> = serde_json::from_str(&std::fs::read_to_string(&inp).expect("read --in")).expect("json");
+            let res = blockcases::run_blockcases(&cases, t, par);
+            std::fs::write(&out, serde_json::to_string(&res).unwrap()).expect("write --out");
+            println!("blockcases: cases={}", res.len());
+        }
         "stress" => {
             let iters: u64 = arg(&args, "--iters").and_then(|s| s.parse().ok()).unwrap_or(100);
             let seed: u64 = arg(&args, "--seed").and_then(|s| s.parse().ok()).unwrap_or(1);
